@@ -32,6 +32,16 @@ def parse_expr(s: str) -> ast.AST:
     return _EXPR_CACHE[s]
 
 
+_MISSING = object()
+
+
+def st_heap_get(eng, o, fld):
+    st = getattr(eng, "_cur_state", None)
+    if st is None:
+        return _MISSING
+    return st.heap.get(o.oid, {}).get(fld, _MISSING)
+
+
 class LemmaInst:
     """Instance of a proved lemma: premises become side obligations, the conclusion a hypothesis."""
 
@@ -75,7 +85,7 @@ class Engine(ExprEval, NumpyModel, NumpyFuncs):
         return fi.module if fi is not None else (self.cur_fi.module if self.cur_fi else None)
 
     def oblige(self, st, goal, kind, label, node=None, extra_hyps=()):
-        if goal is True:
+        if goal is True and kind not in ("raises", "post"):
             return
         if kind == "lib" and node is not None and (getattr(node, "_spec", False) or getattr(node, "_ghost", False)):
             return      # well-definedness of specification expressions is not a program obligation
@@ -86,7 +96,7 @@ class Engine(ExprEval, NumpyModel, NumpyFuncs):
         n = self._oid_counts.get(oid, 0)
         self._oid_counts[oid] = n + 1
         full = oid if n == 0 else f"{oid}/p{n}"
-        g = z3.BoolVal(False) if goal is False else zbool(goal)
+        g = z3.BoolVal(False) if goal is False else (z3.BoolVal(True) if goal is True else zbool(goal))
         props = tuple(self.cur.clause_props.get(label, self.cur.props))
         self.obligations.append(Obligation(full, kind, list(st.pc) + [zbool(h) for h in extra_hyps if h is not True], g,
                                            func=self.cur.ident, target=self.cur.target, line=line, props=props))
@@ -159,7 +169,7 @@ class Engine(ExprEval, NumpyModel, NumpyFuncs):
         return args, kw
 
     def is_heavy(self, fr):
-        return isinstance(fr, FuncRef) and fr.kind in ("func", "method", "class", "external", "unbound", "extmethod")
+        return isinstance(fr, FuncRef) and fr.kind in ("func", "method", "method_exact", "class", "external", "unbound", "extmethod")
 
     def call_value(self, st, fr, args, kw, node):
         if not isinstance(fr, FuncRef):
@@ -240,23 +250,40 @@ class Engine(ExprEval, NumpyModel, NumpyFuncs):
         if self_obj is not None:
             # interface contracts registered on an ancestor's method apply to calls through a subclass-typed object
             pass
-        for c in cands:
-            if c.inline:
-                continue
-            if c.self_class and self_obj is not None and not self.repo.is_subclass(self_obj.cls, c.self_class):
-                continue
-            ok = True
-            for pname, tstr in c.params.items():
-                if "." in pname:
+        for exact in (True, False):
+            for c in cands:
+                if c.inline:
                     continue
-                if pname not in bound:
-                    ok = False
-                    break
-                if not static_matches(parse_type(tstr), bound[pname], self.repo):
-                    ok = False
-                    break
-            if ok:
-                return c
+                if c.self_class and self_obj is not None and not self.repo.is_subclass(self_obj.cls, c.self_class):
+                    continue
+                if c.self_class and self_obj is not None and c.self_class != self_obj.cls.name and not getattr(self_obj, "abstract", False):
+                    continue
+                ok = True
+                for pname, tstr in c.params.items():
+                    if "." in pname:
+                        continue
+                    if pname not in bound:
+                        ok = False
+                        break
+                    if not static_matches(parse_type(tstr), bound[pname], self.repo, exact):
+                        ok = False
+                        break
+                if ok and self_obj is not None:
+                    # dotted fields must match statically too (hyper-parameter variants)
+                    for pname, tstr in c.params.items():
+                        if "." not in pname:
+                            continue
+                        base, _, fld = pname.rpartition(".")
+                        if base != "self":
+                            continue
+                        cur = st_heap_get(self, self_obj, fld)
+                        if cur is _MISSING:
+                            continue
+                        if not static_matches(parse_type(tstr), cur, self.repo, exact):
+                            ok = False
+                            break
+                if ok:
+                    return c
         return None
 
     def bind_args(self, fi: FuncInfo, args, kw, st, self_val=None):
@@ -296,7 +323,7 @@ class Engine(ExprEval, NumpyModel, NumpyFuncs):
         if k == "class":
             return self.construct(st, fr.target, args, kw, node)
         fi: FuncInfo = fr.target
-        self_val = fr.self_obj if k == "method" else None
+        self_val = fr.self_obj if k in ("method", "method_exact") else None
         if k == "unbound" and fr.self_obj is not None:
             self_val = fr.self_obj   # classmethod: cls
         # dynamic dispatch on the static class of self
@@ -305,6 +332,7 @@ class Engine(ExprEval, NumpyModel, NumpyFuncs):
             if real is not None:
                 fi = real
         bound = self.bind_args(fi, args, kw, st, self_val)
+        self._cur_state = st
         c = self.find_contract(fi, bound, self_val if isinstance(self_val, ObjRef) else None)
         if c is not None and not (self.cur is c):
             return self.apply_contract(st, c, fi, bound, node)
@@ -446,6 +474,11 @@ class Engine(ExprEval, NumpyModel, NumpyFuncs):
             return Opaque("exc", name)
         if name in ("str", "type"):
             return Opaque("str", "<str>")
+        if name == "super":
+            fi = st.env.get("$func")
+            if fi is None or fi.cls is None or "self" not in st.env:
+                raise Unsupported("super() outside a method")
+            return Opaque("super", (st.env["self"], fi.cls))
         if name == "print":
             return NONE
         raise Unsupported(f"builtin {name}")
@@ -702,7 +735,13 @@ class Engine(ExprEval, NumpyModel, NumpyFuncs):
                     side.append((list(hyps), pr))
                 hyps.append(inst.conclusion)
             return side + [(hyps + h, g) for h, g in self.sequents(st, prop)]
-        g = self.truth(st, self.eval(st, node))
+        self.in_goal = True
+        try:
+            g = self.truth(st, self.eval(st, node))
+        finally:
+            self.in_goal = False
+        if is_z3(g) and z3.is_and(g):
+            return [([], x) for x in g.children()]
         return [([], g)]
 
     # ------------------------------------------------------------------ statements
@@ -1414,6 +1453,10 @@ class Engine(ExprEval, NumpyModel, NumpyFuncs):
             cv = self.truth(st, self.eval_in(st, cond, scope))
             if cv is False:
                 continue
+            if cv is True:
+                st.env = dict(caller_env)
+                outs.append((st, Raise(exc, node)))
+                return outs
             s_r = st.fork()
             s_r.assume(cv)
             s_r.env = dict(caller_env)
@@ -1445,7 +1488,9 @@ class Engine(ExprEval, NumpyModel, NumpyFuncs):
                 newv = self.havoc_value(st, m, curv, True) if tstr is None else self.make_value(st, parse_type(tstr), fresh_name(m), post)
                 post[m] = newv
                 rebinding[id(curv)] = (curv, newv)
-        if c.returns is not None:
+        if c.returns is not None and c.returns.startswith("="):
+            res = self.eval_in(st, c.returns[1:], post)
+        elif c.returns is not None:
             res = self.make_value(st, parse_type(c.returns), fresh_name("res_" + fi.node.name), post)
         else:
             res = NONE
@@ -1537,8 +1582,9 @@ class Engine(ExprEval, NumpyModel, NumpyFuncs):
     def check_post(self, s, c: Contract, result, fi):
         env = dict(s.old_env)
         # parameters that are arrays may have been rebound (modifies): use current bindings for param names
+        mods = c.modifies if isinstance(c.modifies, (list, dict)) else []
         for p in c.params:
-            if "." not in p and p in s.env:
+            if "." not in p and p in s.env and p in mods:
                 env[p] = s.env[p]
         for k, v in s.env.items():
             if k.startswith("g_"):
